@@ -1,2 +1,390 @@
 import PV.Model.Ops
 import PV.Model.Eval
+import PV.Proofs.OpsSound
+import PV.Proofs.OpsRing
+/-
+  C03 — property theorems.
+
+  "For any computation written with Python's arithmetic/shift/bitwise/negation syntax over a mix of
+  expressions and numbers, the tree that results evaluates, in every environment where the same
+  computation on plain numbers is defined, to exactly the value of that plain computation.  The
+  construction-time shortcuts never change that value and never reorder non-commuting operands."
+
+  `Ops.bin` / `Ops.un` (PV/Model/Ops.lean) model the dunder methods and CPython's dispatch; their
+  agreement with the real code is checked by the correspondence streams.  `den` is the standard
+  meaning of a tree, `PyBinOp.onValues` plain Python arithmetic on exact values; `inexact` stands
+  for any float, about which the model makes no claim.
+
+  Three shortcuts are WRONG and stay visible below as `*_cex` theorems:
+    x // 1 → x,  x % 1 → 0   (x = 1/2),      0 ** x → 0   (x = 0).
+-/
+namespace PV.C03
+open PV
+universe u
+
+variable {env : Env}
+
+/-! ## 1. Neutral elements on the level of Python values -/
+
+/-- `v + 0 == v` -/
+theorem add_zero_right {v w : Value} (h : Value.add v (.int 0) = .ok w) : w.pyEq v = true := by
+  obtain ⟨qa, fa, qb, fb, ha, hb, hw⟩ := add_view h
+  obtain ⟨rfl, rfl⟩ := view_inj hb (int_view 0)
+  exact (Refines.of_view (by simpa using hw) ha (by simp)).pyEq
+
+/-- `0 + v == v` -/
+theorem add_zero_left {v w : Value} (h : Value.add (.int 0) v = .ok w) : w.pyEq v = true := by
+  obtain ⟨qa, fa, qb, fb, ha, hb, hw⟩ := add_view h
+  obtain ⟨rfl, rfl⟩ := view_inj ha (int_view 0)
+  exact (Refines.of_view (by simpa using hw) hb (by simp)).pyEq
+
+/-- `v + False == v` -/
+theorem add_false_right {v w : Value} (h : Value.add v (.bool false) = .ok w) : w.pyEq v = true := by
+  obtain ⟨qa, fa, qb, fb, ha, hb, hw⟩ := add_view h
+  obtain ⟨rfl, rfl⟩ := view_inj hb (show (Value.bool false).view = some (0, false) by simp [Value.view])
+  exact (Refines.of_view (by simpa using hw) ha (by simp)).pyEq
+
+/-- `v - 0 == v` -/
+theorem sub_zero_right {v w : Value} (h : Value.sub v (.int 0) = .ok w) : w.pyEq v = true := by
+  obtain ⟨qa, fa, qb, fb, ha, hb, hw⟩ := sub_view h
+  obtain ⟨rfl, rfl⟩ := view_inj hb (int_view 0)
+  exact (Refines.of_view (by simpa using hw) ha (by simp)).pyEq
+
+/-- `v * 1 == v` -/
+theorem mul_one_right {v w : Value} (h : Value.mul v (.int 1) = .ok w) : w.pyEq v = true := by
+  obtain ⟨qa, fa, qb, fb, ha, hb, hw⟩ := mul_view h
+  obtain ⟨rfl, rfl⟩ := view_inj hb (int_view 1)
+  exact (Refines.of_view (by simpa using hw) ha (by simp)).pyEq
+
+/-- `1 * v == v` -/
+theorem mul_one_left {v w : Value} (h : Value.mul (.int 1) v = .ok w) : w.pyEq v = true := by
+  obtain ⟨qa, fa, qb, fb, ha, hb, hw⟩ := mul_view h
+  obtain ⟨rfl, rfl⟩ := view_inj ha (int_view 1)
+  exact (Refines.of_view (by simpa using hw) hb (by simp)).pyEq
+
+/-- `v * True == v` -/
+theorem mul_true_right {v w : Value} (h : Value.mul v (.bool true) = .ok w) : w.pyEq v = true := by
+  obtain ⟨qa, fa, qb, fb, ha, hb, hw⟩ := mul_view h
+  obtain ⟨rfl, rfl⟩ := view_inj hb (show (Value.bool true).view = some (1, false) by simp [Value.view])
+  exact (Refines.of_view (by simpa using hw) ha (by simp)).pyEq
+
+/-- `v * 0 == 0` -/
+theorem mul_zero_right {v w : Value} (h : Value.mul v (.int 0) = .ok w) :
+    w.pyEq (.int 0) = true := by
+  obtain ⟨qa, fa, qb, fb, ha, hb, hw⟩ := mul_view h
+  obtain ⟨rfl, rfl⟩ := view_inj hb (int_view 0)
+  exact pyEq_zero_iff.2 ⟨_, by simpa using hw⟩
+
+/-- `0 * v == 0` -/
+theorem mul_zero_left {v w : Value} (h : Value.mul (.int 0) v = .ok w) :
+    w.pyEq (.int 0) = true := by
+  obtain ⟨qa, fa, qb, fb, ha, hb, hw⟩ := mul_view h
+  obtain ⟨rfl, rfl⟩ := view_inj ha (int_view 0)
+  exact pyEq_zero_iff.2 ⟨_, by simpa using hw⟩
+
+/-- `v * False == 0` -/
+theorem mul_false_right {v w : Value} (h : Value.mul v (.bool false) = .ok w) :
+    w.pyEq (.int 0) = true := by
+  obtain ⟨qa, fa, qb, fb, ha, hb, hw⟩ := mul_view h
+  obtain ⟨rfl, rfl⟩ := view_inj hb (show (Value.bool false).view = some (0, false) by simp [Value.view])
+  exact pyEq_zero_iff.2 ⟨_, by simpa using hw⟩
+
+/-- `v ** 0 == 1` -/
+theorem pow_zero {v w : Value} (h : Value.pow v (.int 0) = .ok w) : w.pyEq (.int 1) = true := by
+  obtain ⟨f, hw⟩ := pow_zero_right (int_view 0) h
+  rw [pyEq_of_view hw (int_view 1)]; simp
+
+/-- `v ** False == 1` -/
+theorem pow_false {v w : Value} (h : Value.pow v (.bool false) = .ok w) :
+    w.pyEq (.int 1) = true := by
+  obtain ⟨f, hw⟩ := pow_zero_right (show (Value.bool false).view = some (0, false) by simp [Value.view]) h
+  rw [pyEq_of_view hw (int_view 1)]; simp
+
+/-- `v ** 1 == v` -/
+theorem pow_one {v w : Value} (h : Value.pow v (.int 1) = .ok w) : w.pyEq v = true := by
+  obtain ⟨x, y, _, _, _, hx, _⟩ := arith_ok_view h
+  have hw := pow_one_right hx (int_view 1) h
+  exact (Refines.of_view hw hx id).pyEq
+
+/-- `v / 1 == v` whenever the quotient is exact (for an int `v` Python returns a float) -/
+theorem div_one {v w : Value} (h : Value.div v (.int 1) = .ok w) (hex : w.isInexact = false) :
+    w.pyEq v = true := by
+  obtain ⟨x, y, _, _, _, hx, _⟩ := arith_ok_view h
+  obtain ⟨hw, _⟩ := div_one_right hx (int_view 1) h hex
+  rw [pyEq_of_view hw hx]; simp
+
+/-- `0 / v == 0` whenever the quotient is exact -/
+theorem zero_div {v w : Value} (h : Value.div (.int 0) v = .ok w) (hex : w.isInexact = false) :
+    w.pyEq (.int 0) = true := by
+  rcases div_zero_left (int_view 0) h with rfl | hw
+  · simp [Value.isInexact] at hex
+  · exact pyEq_zero_iff.2 ⟨_, hw⟩
+
+/-- `n // 1 == n` for an int/bool `n` (FALSE for Fractions, see `floordiv_by_one_cex`) -/
+theorem floordiv_one {v w : Value} (hv : v.isIntLike = true)
+    (h : Value.floordiv v (.int 1) = .ok w) : w.pyEq v = true := by
+  obtain ⟨q, hq⟩ := isIntLike_view hv
+  have hw := floordiv_one_right hq (int_view 1) h
+  rw [pyEq_of_view hw hq]; simp
+
+/-- `n % 1 == 0` for an int/bool `n` (FALSE for Fractions, see `mod_by_one_cex`) -/
+theorem mod_one {v w : Value} (hv : v.isIntLike = true)
+    (h : Value.mod v (.int 1) = .ok w) : w.pyEq (.int 0) = true := by
+  obtain ⟨q, hq⟩ := isIntLike_view hv
+  exact pyEq_zero_iff.2 ⟨_, mod_one_right hq (int_view 1) h⟩
+
+/-- `1 ** v == 1` whenever the power is exact -/
+theorem one_pow {v w : Value} (h : Value.pow (.int 1) v = .ok w) (hex : w.isInexact = false) :
+    w.pyEq (.int 1) = true := by
+  obtain ⟨f, hw⟩ := one_pow_left (int_view 1) h hex
+  rw [pyEq_of_view hw (int_view 1)]; simp
+
+/-- `0 ** v == 0` for `v != 0`, whenever the power is exact (FALSE at `v = 0`, see `zero_pow_cex`) -/
+theorem zero_pow {v w : Value} (hv : v.pyEq (.int 0) = false)
+    (h : Value.pow (.int 0) v = .ok w) (hex : w.isInexact = false) : w.pyEq (.int 0) = true := by
+  obtain ⟨x, y, _, _, _, _, hy⟩ := arith_ok_view h
+  have hq : y.toRat ≠ 0 := by
+    intro h0
+    have : v.pyEq (.int 0) = true := pyEq_zero_iff.2 ⟨_, by rw [hy, h0]⟩
+    rw [this] at hv; cases hv
+  obtain ⟨f, hw⟩ := zero_pow_left (int_view 0) hy hq h hex
+  exact pyEq_zero_iff.2 ⟨_, hw⟩
+
+/-! ## 2. Falsy nodes evaluate to zero -/
+
+/-- If Python's `bool(e)` is `False` (as computed by `Sum/Product/QuotientBase.__bool__`) and `e`
+evaluates, then its value is a numeric zero, a float (no claim), or an empty foreign container. -/
+theorem falsy_value (e : Expr) (v : Value) (ht : e.truthy = false) (hd : den env e = .ok v) :
+    v.pyEq (.int 0) = true ∨ v = .inexact ∨ v = .tuple [] ∨ v = .list [] := by
+  rcases falsy_den e v ht hd with h | h | h | h
+  · exact Or.inr (Or.inl h)
+  · exact Or.inr (Or.inr (Or.inl h))
+  · exact Or.inr (Or.inr (Or.inr h))
+  · exact Or.inl (pyEq_zero_iff.2 h)
+
+/-! ## 3. Soundness of every operator -/
+
+/-- Generic form: under the side condition `sideCond`, the tree refines the plain value. -/
+theorem bin_refines (o : PyBinOp) (a b t : Expr) (va vb v : Value)
+    (h : Ops.bin o a b = .ok t) (ha : den env a = .ok va) (hb : den env b = .ok vb)
+    (hv : o.onValues va vb = .ok v) (hside : sideCond o a b va vb v = true) :
+    ∃ w, den env t = .ok w ∧ Refines w v := bin_sound h ha hb hv hside
+
+theorem add_sound (env : Env) (a b t : Expr) (va vb v : Value) :
+    Ops.bin .add a b = .ok t → den env a = .ok va → den env b = .ok vb →
+    PyBinOp.onValues .add va vb = .ok v → ∃ w, den env t = .ok w ∧ w.pyEq v = true :=
+  fun h ha hb hv => (bin_sound h ha hb hv rfl).imp fun _ hw => ⟨hw.1, hw.2.pyEq⟩
+
+theorem sub_sound (env : Env) (a b t : Expr) (va vb v : Value) :
+    Ops.bin .sub a b = .ok t → den env a = .ok va → den env b = .ok vb →
+    PyBinOp.onValues .sub va vb = .ok v → ∃ w, den env t = .ok w ∧ w.pyEq v = true :=
+  fun h ha hb hv => (bin_sound h ha hb hv rfl).imp fun _ hw => ⟨hw.1, hw.2.pyEq⟩
+
+theorem mul_sound (env : Env) (a b t : Expr) (va vb v : Value) :
+    Ops.bin .mul a b = .ok t → den env a = .ok va → den env b = .ok vb →
+    PyBinOp.onValues .mul va vb = .ok v → ∃ w, den env t = .ok w ∧ w.pyEq v = true :=
+  fun h ha hb hv => (bin_sound h ha hb hv rfl).imp fun _ hw => ⟨hw.1, hw.2.pyEq⟩
+
+/-- true division; `hex`: the plain quotient is exact (a Fraction, not a float) -/
+theorem truediv_sound (env : Env) (a b t : Expr) (va vb v : Value) :
+    Ops.bin .truediv a b = .ok t → den env a = .ok va → den env b = .ok vb →
+    PyBinOp.onValues .truediv va vb = .ok v → v.isInexact = false →
+    ∃ w, den env t = .ok w ∧ w.pyEq v = true :=
+  fun h ha hb hv hex => (bin_sound h ha hb hv (by simp [sideCond, hex])).imp
+    fun _ hw => ⟨hw.1, hw.2.pyEq⟩
+
+/-- floor division, excluding the wrong fold: `b` is not the constant one, or `a` is int-valued -/
+theorem floordiv_sound_partial (env : Env) (a b t : Expr) (va vb v : Value) :
+    Ops.bin .floordiv a b = .ok t → den env a = .ok va → den env b = .ok vb →
+    PyBinOp.onValues .floordiv va vb = .ok v → (b.isOne = false ∨ va.isIntLike = true) →
+    ∃ w, den env t = .ok w ∧ w.pyEq v = true :=
+  fun h ha hb hv hs => (bin_sound h ha hb hv (by
+    rcases hs with hs | hs <;> simp [sideCond, hs])).imp fun _ hw => ⟨hw.1, hw.2.pyEq⟩
+
+/-- remainder, excluding the wrong fold: `b` is not the constant one, or `a` is int-valued -/
+theorem mod_sound_partial (env : Env) (a b t : Expr) (va vb v : Value) :
+    Ops.bin .mod a b = .ok t → den env a = .ok va → den env b = .ok vb →
+    PyBinOp.onValues .mod va vb = .ok v → (b.isOne = false ∨ va.isIntLike = true) →
+    ∃ w, den env t = .ok w ∧ w.pyEq v = true :=
+  fun h ha hb hv hs => (bin_sound h ha hb hv (by
+    rcases hs with hs | hs <;> simp [sideCond, hs])).imp fun _ hw => ⟨hw.1, hw.2.pyEq⟩
+
+/-- power with an expression base (`Expression.__pow__`): no side condition at all -/
+theorem pow_sound (env : Env) (a b t : Expr) (va vb v : Value) :
+    Ops.bin .pow a b = .ok t → a.isNode = true → den env a = .ok va → den env b = .ok vb →
+    PyBinOp.onValues .pow va vb = .ok v → ∃ w, den env t = .ok w ∧ w.pyEq v = true :=
+  fun h hn ha hb hv => (bin_sound h ha hb hv (by simp [sideCond, hn])).imp
+    fun _ hw => ⟨hw.1, hw.2.pyEq⟩
+
+/-- power with a constant base (`Expression.__rpow__`), excluding the wrong fold: the base is not
+zero, or the exponent value is not zero; `hex`: the plain power is exact -/
+theorem rpow_sound_partial (env : Env) (a b t : Expr) (va vb v : Value) :
+    Ops.bin .pow a b = .ok t → den env a = .ok va → den env b = .ok vb →
+    PyBinOp.onValues .pow va vb = .ok v → v.isInexact = false →
+    (a.isZero = false ∨ vb.pyEq (.int 0) = false) →
+    ∃ w, den env t = .ok w ∧ w.pyEq v = true :=
+  fun h ha hb hv hex hs => (bin_sound h ha hb hv (by
+    rcases hs with hs | hs <;> simp [sideCond, hs, hex])).imp fun _ hw => ⟨hw.1, hw.2.pyEq⟩
+
+theorem lshift_sound (env : Env) (a b t : Expr) (va vb v : Value) :
+    Ops.bin .lshift a b = .ok t → den env a = .ok va → den env b = .ok vb →
+    PyBinOp.onValues .lshift va vb = .ok v → ∃ w, den env t = .ok w ∧ w.pyEq v = true :=
+  fun h ha hb hv => (bin_sound h ha hb hv rfl).imp fun _ hw => ⟨hw.1, hw.2.pyEq⟩
+
+theorem rshift_sound (env : Env) (a b t : Expr) (va vb v : Value) :
+    Ops.bin .rshift a b = .ok t → den env a = .ok va → den env b = .ok vb →
+    PyBinOp.onValues .rshift va vb = .ok v → ∃ w, den env t = .ok w ∧ w.pyEq v = true :=
+  fun h ha hb hv => (bin_sound h ha hb hv rfl).imp fun _ hw => ⟨hw.1, hw.2.pyEq⟩
+
+theorem band_sound (env : Env) (a b t : Expr) (va vb v : Value) :
+    Ops.bin .band a b = .ok t → den env a = .ok va → den env b = .ok vb →
+    PyBinOp.onValues .band va vb = .ok v → ∃ w, den env t = .ok w ∧ w.pyEq v = true :=
+  fun h ha hb hv => (bin_sound h ha hb hv rfl).imp fun _ hw => ⟨hw.1, hw.2.pyEq⟩
+
+theorem bor_sound (env : Env) (a b t : Expr) (va vb v : Value) :
+    Ops.bin .bor a b = .ok t → den env a = .ok va → den env b = .ok vb →
+    PyBinOp.onValues .bor va vb = .ok v → ∃ w, den env t = .ok w ∧ w.pyEq v = true :=
+  fun h ha hb hv => (bin_sound h ha hb hv rfl).imp fun _ hw => ⟨hw.1, hw.2.pyEq⟩
+
+theorem bxor_sound (env : Env) (a b t : Expr) (va vb v : Value) :
+    Ops.bin .bxor a b = .ok t → den env a = .ok va → den env b = .ok vb →
+    PyBinOp.onValues .bxor va vb = .ok v → ∃ w, den env t = .ok w ∧ w.pyEq v = true :=
+  fun h ha hb hv => (bin_sound h ha hb hv rfl).imp fun _ hw => ⟨hw.1, hw.2.pyEq⟩
+
+theorem neg_sound (env : Env) (e t : Expr) (ve v : Value) :
+    Ops.un .neg e = .ok t → den env e = .ok ve → PyUnOp.onValue .neg ve = .ok v →
+    ∃ w, den env t = .ok w ∧ w.pyEq v = true :=
+  fun h he hv => (un_sound h he hv).imp fun _ hw => ⟨hw.1, hw.2.pyEq⟩
+
+theorem pos_sound (env : Env) (e t : Expr) (ve v : Value) :
+    Ops.un .pos e = .ok t → den env e = .ok ve → PyUnOp.onValue .pos ve = .ok v →
+    ∃ w, den env t = .ok w ∧ w.pyEq v = true :=
+  fun h he hv => (un_sound h he hv).imp fun _ hw => ⟨hw.1, hw.2.pyEq⟩
+
+theorem invert_sound (env : Env) (e t : Expr) (ve v : Value) :
+    Ops.un .invert e = .ok t → den env e = .ok ve → PyUnOp.onValue .invert ve = .ok v →
+    ∃ w, den env t = .ok w ∧ w.pyEq v = true :=
+  fun h he hv => (un_sound h he hv).imp fun _ hw => ⟨hw.1, hw.2.pyEq⟩
+
+/-! ### The three wrong folds (confirmed on the real code), as theorems -/
+
+def envHalf : Env := [("x", .frac (1/2))]
+def envZero : Env := [("x", .int 0)]
+
+theorem floordiv_half_one : Value.floordiv (.frac (1/2)) (.int 1) = .ok (.int 0) := by
+  simp [Value.floordiv, arith, Value.isInexact, Value.isSeq, Value.num?, floordivN, Num.toRat,
+    pure, Except.pure, rat_floor_eq]
+  norm_num
+
+theorem mod_half_one : Value.mod (.frac (1/2)) (.int 1) = .ok (.frac (1/2)) := by
+  simp [Value.mod, arith, Value.isInexact, Value.isSeq, Value.num?, modN, Num.toRat,
+    pure, Except.pure, rat_floor_eq]
+  norm_num
+
+theorem div_half_one : Value.div (.frac (1/2)) (.int 1) = .ok (.frac (1/2)) := by
+  simp [Value.div, arith, Value.isInexact, Value.isSeq, Value.num?, divN, Num.toRat,
+    pure, Except.pure]
+
+/-- `x // 1` is folded to `x`; for `x = 1/2` plain Python gives `0`, the tree gives `1/2`. -/
+theorem floordiv_by_one_cex : ∃ (env : Env) (a b t : Expr) (va vb v w : Value),
+    Ops.bin .floordiv a b = .ok t ∧ den env a = .ok va ∧ den env b = .ok vb ∧
+    PyBinOp.onValues .floordiv va vb = .ok v ∧ den env t = .ok w ∧ w.pyEq v = false := by
+  refine ⟨envHalf, .var "x", .const (.int 1), .var "x", .frac (1/2), .int 1, .int 0, .frac (1/2),
+    rfl, rfl, rfl, floordiv_half_one, rfl, ?_⟩
+  simp [Value.pyEq, Value.num?, Num.toRat]
+
+/-- `x % 1` is folded to `0`; for `x = 1/2` plain Python gives `1/2`. -/
+theorem mod_by_one_cex : ∃ (env : Env) (a b t : Expr) (va vb v w : Value),
+    Ops.bin .mod a b = .ok t ∧ den env a = .ok va ∧ den env b = .ok vb ∧
+    PyBinOp.onValues .mod va vb = .ok v ∧ den env t = .ok w ∧ w.pyEq v = false := by
+  refine ⟨envHalf, .var "x", .const (.int 1), .const (.int 0), .frac (1/2), .int 1, .frac (1/2),
+    .int 0, rfl, rfl, rfl, mod_half_one, rfl, ?_⟩
+  simp [Value.pyEq, Value.num?, Num.toRat]
+
+/-- `0 ** x` is folded to `0`; for `x = 0` plain Python gives `1`. -/
+theorem zero_pow_cex : ∃ (env : Env) (a b t : Expr) (va vb v w : Value),
+    Ops.bin .pow a b = .ok t ∧ den env a = .ok va ∧ den env b = .ok vb ∧
+    PyBinOp.onValues .pow va vb = .ok v ∧ den env t = .ok w ∧ w.pyEq v = false := by
+  refine ⟨envZero, .const (.int 0), .var "x", .const (.int 0), .int 0, .int 0, .int 1, .int 0,
+    rfl, rfl, rfl, ?_, rfl, ?_⟩
+  · simp [PyBinOp.onValues, Value.pow, arith, Value.isInexact, Value.isSeq, Value.num?, powN,
+      bigLimit, pure, Except.pure]
+  · simp [Value.pyEq, Value.num?, Num.toRat]
+
+/-! ### The added hypotheses are satisfiable by non-trivial instances -/
+
+/-- `truediv_sound` with the fold `x / 1 → x` at `x = 1/2` (exact quotient) -/
+example : ∃ (env : Env) (a b t : Expr) (va vb v : Value),
+    Ops.bin .truediv a b = .ok t ∧ den env a = .ok va ∧ den env b = .ok vb ∧
+    PyBinOp.onValues .truediv va vb = .ok v ∧ v.isInexact = false :=
+  ⟨envHalf, .var "x", .const (.int 1), .var "x", .frac (1/2), .int 1, .frac (1/2),
+    rfl, rfl, rfl, div_half_one, rfl⟩
+
+/-- `floordiv_sound_partial` / `mod_sound_partial` with the fold `x // 1 → x` at the int `x = 0` -/
+example : ∃ (env : Env) (a b t : Expr) (va vb v : Value),
+    Ops.bin .floordiv a b = .ok t ∧ den env a = .ok va ∧ den env b = .ok vb ∧
+    PyBinOp.onValues .floordiv va vb = .ok v ∧ (b.isOne = false ∨ va.isIntLike = true) :=
+  ⟨envZero, .var "x", .const (.int 1), .var "x", .int 0, .int 1, .int 0,
+    rfl, rfl, rfl, rfl, Or.inr rfl⟩
+
+/-- `rpow_sound_partial` with the fold `1 ** x → 1` -/
+example : ∃ (env : Env) (a b t : Expr) (va vb v : Value),
+    Ops.bin .pow a b = .ok t ∧ den env a = .ok va ∧ den env b = .ok vb ∧
+    PyBinOp.onValues .pow va vb = .ok v ∧ v.isInexact = false ∧
+    (a.isZero = false ∨ vb.pyEq (.int 0) = false) := by
+  refine ⟨envZero, .const (.int 1), .var "x", .const (.int 1), .int 1, .int 0, .int 1,
+    rfl, rfl, rfl, ?_, rfl, Or.inl rfl⟩
+  simp [PyBinOp.onValues, Value.pow, arith, Value.isInexact, Value.isSeq, Value.num?, powN,
+    bigLimit, pure, Except.pure]
+
+/-! ## 4. Whole operator programs -/
+
+/-- A program written with Python operator syntax over expressions and numbers: if it builds the
+tree `t`, if the same computation on plain numbers yields `v` (`OpProg.plain`: leaves evaluated by
+`den`, operators applied to values), if no operator instance falls under a side condition
+(`OpProg.sideOK`: the three wrong folds are not exercised; quotients, and powers of constants,
+are exact) and the model does not abstain on the built trees (`OpProg.treeExact`: no built tree
+evaluates to a float), then `t` evaluates to a value Python-equal to `v`. -/
+theorem program_sound (env : Env) (p : OpProg) (t : Expr) (v : Value)
+    (hb : p.build = .ok t) (hp : OpProg.plain env p = .ok v)
+    (hs : OpProg.sideOK env p = true) (hte : OpProg.treeExact env p = true)
+    (hv : (v.num?.isSome || v.isInexact) = true) :
+    ∃ w, den env t = .ok w ∧ w.pyEq v = true := by
+  have hv' : v.NumOrInexact := by
+    simp only [Bool.or_eq_true] at hv
+    rcases hv with hv | hv
+    · cases hx : v.num? with
+      | none => rw [hx] at hv; cases hv
+      | some x => exact Or.inr ⟨_, _, num_some_view hx⟩
+    · cases v <;> simp [Value.isInexact] at hv
+      exact Or.inl rfl
+  obtain ⟨w, hw, href⟩ := program_refines p t v hb hp hs hte hv'
+  exact ⟨w, hw, href.pyEq⟩
+
+/-- a non-trivial instance of the hypotheses of `program_sound`:  `(x * 0 + x) / 1 - (-x)` at
+`x = 1/2` (folds `x*0 → 0`, `0 + x → x`, `x / 1 → x`, `-x → (-1)*x`) -/
+def demoProg : OpProg :=
+  .bin .sub
+    (.bin .truediv (.bin .add (.bin .mul (.leaf (.var "x")) (.leaf (.const (.int 0)))) (.leaf (.var "x")))
+      (.leaf (.const (.int 1))))
+    (.un .neg (.leaf (.var "x")))
+
+example : demoProg.build =
+    .ok (.nary .sum [.var "x", .nary .prod [.const (.int (-1)), .const (.int (-1)), .var "x"]]) := rfl
+example : OpProg.sideOK envHalf demoProg = true := by decide
+example : OpProg.treeExact envHalf demoProg = true := by decide
+example : (match OpProg.plain envHalf demoProg with
+    | .ok v => v.num?.isSome || v.isInexact
+    | _ => false) = true := by decide
+
+/-! ## 5. Non-commuting operands are never reordered -/
+
+/-- Over an arbitrary (possibly non-commutative) ring: a program over `+ - * neg pos` whose
+leaves are int constants, variables, sums and products builds a tree with the same ring value.
+`evalRing` folds sums from `0` and products from `1`, left to right, so any reordering of factors
+would be visible in a non-commutative ring. -/
+theorem no_reorder {K : Type u} [Ring K] (ρ : String → K) (p : OpProg) (t : Expr) (k : K) :
+    p.build = .ok t → plainRing ρ p = some k → evalRing ρ t = some k :=
+  PV.no_reorder ρ p t k
+
+end PV.C03
